@@ -202,7 +202,7 @@ func stallSlack(p *plan.Plan) time.Duration {
 // checkCache holds the oracles of C07, C08 and C19.
 func checkCache(h *History, vs []*opView) {
 	rp := h.RP
-	if rp.Cache.MemSize == 0 || rp.CloseAtUs > 0 {
+	if rp.Cache.MemSize == 0 && rp.Cache.Redis == nil || rp.CloseAtUs > 0 {
 		return
 	}
 	serials := buildSerials(h, vs)
@@ -214,6 +214,14 @@ func checkCache(h *History, vs []*opView) {
 		// an unreachable second level delays lookups by its time-out, and a
 		// flushed one forgets; the "must be a hit" clauses do not apply then
 		ample = ample && false
+	}
+	// a fault-free second level keeps what it was given until it expires,
+	// whatever the size of the memory cache in front of it; a value is there
+	// once the asynchronous store queue (128 slots, one command at a time) has
+	// reached it
+	redisDurable := time.Duration(-1)
+	if rs := rp.Cache.Redis; rs != nil && len(rs.DownUs) == 0 && len(rs.FlushUs) == 0 {
+		redisDurable = time.Second + 130*us(rs.LatUs[1])
 	}
 	faultFree := rp.Net.UpDrop == 0 && rp.Net.UpDup == 0 && rp.Net.UpCorrupt == 0 && len(rp.Net.Partitions) == 0 && len(rp.Net.Connect) == 0
 
@@ -513,7 +521,11 @@ func checkCache(h *History, vs []*opView) {
 			for _, prev := range list {
 				if prev.positive && !prev.tc && prev.reply.At < sr.reply.At && (!prev.groupKnown || prev.group == myGroup) && prev.up == sr.up && reached(prev, sr.reply.QueryAt) {
 					liveUntil := prev.reply.At + upMin + prev.lifetime - 2*time.Second
-					if sr.reply.At+upMax+sigma < liveUntil && v.o.SentAt+clMax < liveUntil && ample && prev.groupKnown && sr.groupKnown && sr.group == prev.group {
+					// (the second level takes stores only after its first successful
+					// ping, one second after start-up)
+					kept := ample || redisDurable >= 0 && sr.reply.QueryAt >= prev.reply.At+upMax+sigma+redisDurable &&
+						prev.reply.At >= time.Second+us(rp.Cache.Redis.LatUs[1])+100*time.Millisecond+sigma
+					if sr.reply.At+upMax+sigma < liveUntil && v.o.SentAt+clMax < liveUntil && kept && prev.groupKnown && sr.groupKnown && sr.group == prev.group {
 						h.S.Fail("C08", "error-displaced-positive", "%s: served negative serial %d (rcode %d) although positive serial %d, fetched %v earlier with lifetime %v, was still live", name, sr.serial, sr.rcode, prev.serial, sr.reply.At-prev.reply.At, prev.lifetime)
 						// the same observation is C19's "a failed refresh leaves the old entry
 						// usable" when the negative answer was fetched by a background
